@@ -172,6 +172,24 @@ def guarded_refill_needs_empty(prog, f, rule, cons=None):
                             return True
             return False
         wit = cfg.path_avoiding(cfg.entry, node, emptied)
+        if wit is not None:
+            # the CFG ignores correlated tests (`if c is None: fresh ... if c is not None: X.clear()`): confirm the witness on the symbolic
+            # paths, which remember the outcome of a test on unchanged names
+            try:
+                from .symx import run_paths as _rp
+                emptied_stmts = [nd.ast for nd in cfg.nodes if nd.kind == 'stmt' and emptied(nd)]
+                sps, trunc = _rp(f.node, max_paths=4000, follow_except=False)
+                feasible = trunc
+                for p_ in sps:
+                    li = [i for i, e in enumerate(p_.events) if e.kind == 'loop' and e.stmt is lp]
+                    if not li:
+                        continue
+                    if not any(any(e.stmt is s_ for s_ in emptied_stmts) for e in p_.events[:li[0]]):
+                        feasible = True
+                if not feasible:
+                    wit = None
+            except Exception:
+                pass
         if wit is None:
             rule.ok(cons, 'non-zero-only refill of %r starts from an empty container on every path' % tgt, f, lp)
         else:
